@@ -729,6 +729,30 @@ func (m *monitors) registryInvariants(where string) {
 					}
 				}
 			}
+			var maxP, canBuy, qCan uint64
+			if wrk {
+				maxP = c.app.WrkchainKeeper.GetParams(ctx).MaxStorageLimit
+				canBuy = c.app.WrkchainKeeper.GetMaxPurchasableSlots(ctx, id)
+				if res, err := c.app.WrkchainKeeper.WrkChainStorage(sdk.WrapSDKContext(ctx), &wrktypes.QueryWrkChainStorageRequest{WrkchainId: id}); err == nil {
+					qCan = res.MaxPurchasable
+				}
+			} else {
+				maxP = c.app.BeaconKeeper.GetParams(ctx).MaxStorageLimit
+				canBuy = c.app.BeaconKeeper.GetMaxPurchasableSlots(ctx, id)
+				if res, err := c.app.BeaconKeeper.BeaconStorage(sdk.WrapSDKContext(ctx), &bcntypes.QueryBeaconStorageRequest{BeaconId: id}); err == nil {
+					qCan = res.MaxPurchasable
+				}
+			}
+			wantCan := uint64(0)
+			if maxP > limit {
+				wantCan = maxP - limit
+			}
+			if canBuy != wantCan || qCan != wantCan {
+				m.fail("C08", 0, fmt.Sprintf("after %s: registration %s reports purchasable capacity %d (query: %d), max %d - limit %d gives %d", where, key, canBuy, qCan, maxP, limit, wantCan))
+			}
+			if old, ok := m.limitBefore[key]; ok && limit > old && limit > maxP {
+				m.fail("C08", 0, fmt.Sprintf("after %s: limit of %s was raised from %d to %d above the maximum in force %d", where, key, old, limit, maxP))
+			}
 			if old, ok := m.limitBefore[key]; ok && limit < old {
 				m.fail("C08", 0, fmt.Sprintf("after %s: limit of %s dropped from %d to %d", where, key, old, limit))
 			}
